@@ -358,6 +358,15 @@ func main() {
 							addrs[id.Name][fn+"[:]"] = true
 						}
 					case *ast.CallExpr:
+						// a method called on a package-level variable may mutate it (pointer receivers)
+						if sel, ok := x.Fun.(*ast.SelectorExpr); ok {
+							if id := rootIdent(sel.X); id != nil && glob[id.Name] && !local[id.Name] {
+								if addrs[id.Name] == nil {
+									addrs[id.Name] = map[string]bool{}
+								}
+								addrs[id.Name][fn+"."+sel.Sel.Name+"()"] = true
+							}
+						}
 						name := callName(x.Fun)
 						if name == "errorf" || name == "panicf" {
 							if len(x.Args) > 0 {
